@@ -33,6 +33,7 @@
 
 #include <dirent.h>
 #include <fcntl.h>
+#include <sys/file.h>
 #include <sys/ioctl.h>
 #include <sys/stat.h>
 #include <sys/syscall.h>
@@ -452,8 +453,43 @@ void runScenario(const Json::Value& sc, Json::Value& out) {
   OomdContext ctx;
   int ticks = 0;
   auto before = listTasks();
+  // "queue_limit": n - the service's inotify instance gets a queue of n events (fs.inotify.max_queued_events is read when an
+  // instance is created), so that a short burst of file operations overflows it and the kernel delivers IN_Q_OVERFLOW.  The
+  // sysctl is changed only while the instance is created; harness processes serialise on a lock file (shared for ordinary
+  // creations) so that no other scenario gets the small queue.  Needs a writable /proc/sys; reported in `queue_limit_ok`.
+  int qlimit = sc.get("queue_limit", 0).asInt();
+  std::string lockPath = std::string(getenv("VERIF_SCRATCH") ? getenv("VERIF_SCRATCH") : "/var/tmp/oomd-verif") + "/inotify-sysctl.lock";
+  int lockFd = ::open(lockPath.c_str(), O_RDWR | O_CREAT, 0644);
+  if (lockFd >= 0) ::flock(lockFd, qlimit > 0 ? LOCK_EX : LOCK_SH);
+  std::string savedLimit;
+  bool limitOk = false;
+  const char* kSysctl = "/proc/sys/fs/inotify/max_queued_events";
+  if (qlimit > 0) {
+    if (FILE* f = ::fopen(kSysctl, "r")) {
+      char b[64] = {0};
+      if (::fgets(b, sizeof(b), f)) savedLimit = b;
+      ::fclose(f);
+    }
+    if (!savedLimit.empty()) {
+      if (FILE* f = ::fopen(kSysctl, "w")) {
+        limitOk = ::fprintf(f, "%d\n", qlimit) > 0;
+        limitOk = (::fclose(f) == 0) && limitOk;
+      }
+    }
+    out["queue_limit_ok"] = limitOk;
+  }
   // trailing '/' exercises the constructor's sanitising
   auto svc = FsDropInService::create(cgfs, *root, *engine, c.dir + (sc.get("slash", false).asBool() ? "/" : ""));
+  if (limitOk) {
+    if (FILE* f = ::fopen(kSysctl, "w")) {
+      ::fputs(savedLimit.c_str(), f);
+      ::fclose(f);
+    }
+  }
+  if (lockFd >= 0) {
+    ::flock(lockFd, LOCK_UN);
+    ::close(lockFd);
+  }
   if (!svc) {
     out["outcome"] = "create-failed";
     g_in_scenario = false;
